@@ -28,6 +28,10 @@ import ArmiVerif.Props.SrcTie.EqCycleNodeFromCumulativeNode
 import ArmiVerif.Props.SrcTie.EqCycleNodeFromCumulativeStep
 import ArmiVerif.Props.SrcTie.EqMcnpId
 import ArmiVerif.Props.SrcTie.EqAaazzzsId
+import ArmiVerif.Props.SrcTie.EqXsNumberFromLabel
+import ArmiVerif.Props.SrcTie.EqXsLabelFromNumber
+import ArmiVerif.Props.SrcTie.EqBlockBandwidth
+import ArmiVerif.Props.SrcTie.EqH5GroupName
 import ArmiVerif.Props.SrcTie.CorHexRingPos
 import ArmiVerif.Props.SrcTie.CorHexTotal
 import ArmiVerif.Props.SrcTie.CorHexNeighbours
@@ -37,3 +41,6 @@ import ArmiVerif.Props.SrcTie.CorHexSym
 import ArmiVerif.Props.SrcTie.CorNodes
 import ArmiVerif.Props.SrcTie.CorMcnpId
 import ArmiVerif.Props.SrcTie.CorNodesInverse
+import ArmiVerif.Props.SrcTie.CorXsLabels
+import ArmiVerif.Props.SrcTie.CorBlockBandwidth
+import ArmiVerif.Props.SrcTie.CorH5GroupName
